@@ -4,10 +4,27 @@ from props import P
 P("C41",
   title="Generated IDs are unique and the sequential counter is reproducible",
   design_ref="DESIGN.md §3 C41",
-  technique="Coq proof (state machine of the generator + checkpoint text; interleaving model of k threads with an atomic "
-            "fetch-and-add, induction over every schedule) + exact model/impl correspondence on API scripts + concurrent stress",
-  level_text="TBD",
-  level_note="TBD",
-  assumptions=["sync/atomic.AddUint64 is one indivisible fetch-and-add returning the new value (Go memory model)"],
-  trusted=["modelled, not verified: timing/idgenerator.go, timing/idgenerator_checkpoint.go"],
+  technique="Coq proof (state machine of the generator with the exact checkpoint text; interleaving model of any number of threads "
+            "with an atomic fetch-and-add, induction over every schedule) + exact model/implementation correspondence on API "
+            "scripts + concurrent stress evaluated by the property predicate",
+  level_text="Model: uint64 counter with wrap, Generate, SaveCheckpoint (exact JSON bytes incl. newline), LoadCheckpoint (of an "
+             "earlier text through a parser of the canonical text; of a DTO; of malformed text), kind mismatch errors, "
+             "Set/GetIDGeneratorNextID, the parallel generator rejecting checkpoints and panicking on Set/Get. Theorems: "
+             "c41_sequential_deterministic (fresh generator: IDs are 1..n for every n < 2^64), c41_sequence_unique_nonzero (from any "
+             "counter c: c+1..c+n, NoDup, nonzero while c+n < 2^64), c41_restore_continues and c41_save_generate_restore_replays "
+             "(the text written by Save, loaded into ANY sequential generator, makes every later ID equal the one the saved "
+             "generator would hand out; proved through render/parse of the decimal text), c41_failed_load_changes_nothing, "
+             "c41_concurrent_unique_nonzero (EVERY interleaving of atomic adds by any number of threads, < 2^64 calls: IDs are "
+             "exactly c0+1..c0+N, distinct, nonzero, no ID given to two threads), c41_load_store_mutation_refuted (non-atomic "
+             "load/store: two threads get ID 1), c41_wrap_witness (the 2^64-th call returns 0). Tie: exact on random API scripts "
+             "(IDs, checkpoint bytes, errors, panics, next_id read back by encoding/json); stress runs with GOMAXPROCS=16 on both "
+             "generator kinds whose summary must equal the closed form justified by c41_concurrent_unique_nonzero.",
+  level_note="Trusted: Coq kernel + vm_compute; the Go harness; the hand-written model. The concurrent part is a proof about the "
+             "interleaving model under the named atomicity assumption; the real sync/atomic is only exercised by the stress "
+             "(observed data: distinct && nonzero && exactly 1..N). encoding/json decoding of arbitrary text is not modelled "
+             "(only the canonical text and a DTO view). A link theorem check_case -> holds_on is not proved.",
+  assumptions=["sync/atomic.AddUint64 is one indivisible fetch-and-add returning the new value (Go memory model)",
+               "fewer than 2^64 IDs are handed out between explicit counter settings (after that the counter wraps and hands out 0: c41_wrap_witness)"],
+  trusted=["modelled, not verified: timing/idgenerator.go, timing/idgenerator_checkpoint.go",
+           "not modelled: the idGeneratorInstantiated/mutex singleton protocol (Use*/GetIDGenerator) beyond 'fresh generator of the chosen kind'"],
   )
